@@ -185,4 +185,163 @@ def handle (pool : Pool) (stream : Bool) (permitted : Bool) (env : Env) : Handle
 def calls (evs : List Event) : List Nat :=
   evs.filterMap (fun e => match e with | .call k => some k | _ => none)
 
+/-! ## Generic mirror of `RetryPolicy.Wrap` over an opaque float algebra (Extension resil)
+
+Target of the translation tie (`Gen/FactsC10IR.wrapIR`, `Proofs/RetryIR.lean`). The Go code computes
+the back-off in `float64`; here the arithmetic is an **opaque algebra** `FloatOps F` (the theorems about
+attempt counting, early stop, cancellation and the last result hold for every algebra, hence for
+`float64` itself; the duration theorems are proved for the exact rational instance). A sleep event
+records `time.Duration(d)` in nanoseconds. -/
+
+/-- the `float64` operations used by `Wrap` -/
+structure FloatOps (F : Type) where
+  /-- `float64(n)` (also untyped integer constants) -/
+  ofInt : Int → F
+  add : F → F → F
+  sub : F → F → F
+  mul : F → F → F
+  /-- `int(x)`, `time.Duration(x)` -/
+  toInt : F → Int
+  /-- decimal literal `m·10^-e` (`1.5 = dec 15 1`) -/
+  dec : Nat → Nat → F
+
+inductive EventG
+  | call (k : Nat)                 -- the `k`-th call of the wrapped handler
+  | sleep (k : Nat) (dur : Int)    -- the `k`-th `select`: `time.After(dur)` fired
+  | stop (k : Nat)                 -- the `k`-th `select`: `ctx.Done()` won
+deriving Repr, DecidableEq
+
+structure RunG where
+  events : List EventG
+  err : Option SPErr
+  resp : Option Nat
+deriving Repr, DecidableEq
+
+structure EnvG where
+  /-- result of `rand.Intn(n)` before the `k`-th `select` -/
+  jitter : Nat → Int → Int
+  /-- does `<-ctx.Done()` win the `k`-th `select` -/
+  done : Nat → Bool
+
+/-- `delta := base * f; d := base - delta + float64(rand.Intn(int(delta*2+1)))` -/
+def backoffG {F : Type} (A : FloatOps F) (f base : F) (rnd : Int → Int) : F :=
+  let delta := A.mul base f
+  A.add (A.sub base delta) (A.ofInt (rnd (A.toInt (A.add (A.mul delta (A.ofInt 2)) (A.ofInt 1)))))
+
+/-- `if p.BackOffPolicy == "exponential" { base *= 1.5 }` -/
+def nextBaseG {F : Type} (A : FloatOps F) (exponential : Bool) (base : F) : F :=
+  if exponential then A.mul base (A.dec 15 1) else base
+
+/-- the attempt loop of `Wrap`: `fuel` attempts left, `k` = handler calls (= selects) so far -/
+def wrapLoopG {F : Type} (A : FloatOps F) (h : Nat → Option Nat → Option SPErr × Option Nat)
+    (exponential : Bool) (f : F) (env : EnvG) : Nat → Nat → F → Option SPErr × Option Nat → RunG
+  | 0, _, _, prev => ⟨[], prev.1, prev.2⟩
+  | fuel + 1, k, base, prev =>
+    let r := h k prev.2
+    match r.1 with
+    | none => ⟨[.call k], none, r.2⟩
+    | some e =>
+      if env.done k then ⟨[.call k, .stop k], some e, r.2⟩
+      else
+        let rest := wrapLoopG A h exponential f env fuel (k + 1) (nextBaseG A exponential base) r
+        ⟨.call k :: .sleep k (A.toInt (backoffG A f base (env.jitter k))) :: rest.events, rest.err, rest.resp⟩
+
+/-- the closure returned by `RetryPolicy.Wrap(handler)`, run once; `resp0` = `spCtx.resp` before -/
+def wrapG {F : Type} (A : FloatOps F) (p : RetryPolicy) (f : F)
+    (h : Nat → Option Nat → Option SPErr × Option Nat) (env : EnvG) (resp0 : Option Nat) : RunG :=
+  wrapLoopG A h p.exponential f env p.maxAttempts.toNat 0 (A.ofInt p.wait) (none, resp0)
+
+/-- `CreateWrapper` on the raw fields: `WaitDuration` string `ws` (parsed by `time.ParseDuration`,
+which yields 0 on error), previous `p.waitDuration` = `wd0` -/
+def createWrapperG (wd0 : Int) (ws : String) (parse : String → Int × Bool) : Int :=
+  (createWrapper (if ws != "" then (parse ws).1 else wd0) : Nat)
+
+/-- what the environment answers to one `doHandle` call (in the order the code asks) -/
+structure DoEnv where
+  noServer : Bool        -- `ChooseServer` returned nil
+  prepareFails : Bool    -- `prepareRequest` returned an error
+  sendFails : Bool       -- `fnSendRequest` returned an error
+  ctxErr : CtxErr        -- `spCtx.stdReq.Context().Err()` when it did
+  buildFails : Bool      -- `buildResponse` returned an error
+  status : Nat           -- `resp.StatusCode`
+deriving Repr, DecidableEq
+
+/-- the `Attempt` an environment answer amounts to (precedence of the checks in `doHandle`) -/
+def DoEnv.attempt (o : DoEnv) : Attempt :=
+  if o.noServer then .noServer
+  else if o.prepareFails then .prepareFail
+  else if o.sendFails then .sendErr o.ctxErr
+  else if o.buildFails then .buildFail
+  else .resp o.status
+
+/-! ### `ServerPool.handle` as the translation sees it (Extension resil) -/
+
+/-- a handler function value as `ServerPool.handle` composes it -/
+inductive HF
+  | base                                  -- the closure around `doHandle`
+  | retry (p : RetryPolicy) (inner : HF)  -- `sp.retryWrapper.Wrap(inner)`
+  | cb (inner : HF)                       -- `sp.circuitBreakerWrapper.Wrap(inner)`
+deriving Repr, DecidableEq
+
+/-- the errors the composed handler returns -/
+inductive HErr
+  | shortCircuited             -- `resilience.ErrShortCircuited`
+  | spe (e : SPErr)            -- a `serverPoolError`
+deriving Repr, DecidableEq
+
+structure RunH where
+  events : List Event
+  err : Option HErr
+  resp : Option Nat
+  acq : Nat
+  recs : List Bool
+deriving Repr, DecidableEq
+
+/-- running a composed handler once. Only the compositions `handle` builds are given a meaning
+(`base`, `retry base`, and `cb` around either); any other one — e.g. a breaker *inside* the retry — is
+outside the model and mapped to a value no theorem accepts. -/
+def runHF (fc : List Nat) (env : Env) (permitted : Bool) : HF → RunH
+  | .base => let r := handler fc env 0 none; ⟨[.call 0], r.1.map .spe, r.2, 0, []⟩
+  | .retry p .base =>
+    let R := retryLoop fc p env p.maxAttempts.toNat 0 (none, none)
+    ⟨R.events, R.err.map .spe, R.resp, 0, []⟩
+  | .cb inner =>
+    if !permitted then ⟨[], some .shortCircuited, none, 1, []⟩
+    else
+      let R := runHF fc env permitted inner
+      ⟨R.events, R.err, R.resp, R.acq + 1, R.recs ++ [R.err.isSome]⟩
+  | .retry _ _ => ⟨[], none, none, 1000000, []⟩
+
+/-- the handler closure of `ServerPool.handle`, before it calls `doHandle`: does the context carry the
+pool's deadline, the value of `spCtx.resp`, and are `stdReq` / `stdResp` reset -/
+def handlerG (timeout : Int) : Bool × Option Nat × Bool := (decide (timeout > 0), none, true)
+
+/-! ### the request payload across attempts (Extension resil)
+
+`prepareRequest` runs once per attempt and hands `req.GetPayload()` to `http.NewRequestWithContext`.
+For a buffered request `GetPayload` returns a *fresh* reader over the bytes on every call; for a stream
+it returns the one-shot stream itself, which the first transport call drains. -/
+
+inductive Payload
+  | buffered (b : String)
+  | stream (b : String)
+deriving Repr, DecidableEq
+
+def Payload.bytes : Payload → String
+  | .buffered b => b
+  | .stream b => b
+
+def Payload.isStream : Payload → Bool
+  | .buffered _ => false
+  | .stream _ => true
+
+/-- the body the `k`-th transport call of one client request carries -/
+def Payload.sent (p : Payload) (k : Nat) : String :=
+  match p with
+  | .buffered b => b
+  | .stream b => if k = 0 then b else ""
+
+/-- the bodies of the first `n` transport calls -/
+def sentBodies (p : Payload) (n : Nat) : List String := (List.range n).map p.sent
+
 end EgVerif.Retry
